@@ -1,7 +1,6 @@
 """C10 — Compiler output and diagnostics are deterministic.
 
-Scope (the anchored modules + their CFG helpers): cfg/analysis.py, cfg/cfg.py, cfg/bb.py,
-checker/cfg_checker.py, checker/core.py, engine.py, compiler/core.py, checker/linearity_checker.py.
+Scope: every module of guppylang_internals and guppylang (the scanner walks both packages).
 
 1. A scanner recomputes, from the current source, every place where an UNORDERED collection (a
    value built by set(...)/a set display/comprehension/`keys() | keys()`, or annotated set[...]) is
@@ -24,9 +23,18 @@ from pyvc.symcoll import SColl, SSet, Elem
 from .common import mk_engine
 
 TITLE = "every unordered iteration in the anchored modules is order-independent (or absent); reachability worklist proved confluent"
-FILES = ["cfg/analysis.py", "cfg/cfg.py", "cfg/bb.py", "checker/cfg_checker.py", "checker/core.py", "engine.py", "compiler/core.py",
-         "checker/linearity_checker.py"]
 PKG = "guppylang-internals/src/guppylang_internals/"
+PKG2 = "guppylang/src/guppylang/"
+
+
+def all_files(repo):
+    """every module of both packages (paths relative to guppylang_internals; the guppylang package is prefixed)"""
+    import glob
+    out = []
+    for pkg, pre in ((PKG, ""), (PKG2, "guppylang:")):
+        root = os.path.join(repo, pkg)
+        out += [(pre + os.path.relpath(p_, root), p_) for p_ in sorted(glob.glob(root + "**/*.py", recursive=True))]
+    return out
 
 # (file, function, kind, normalised site text) -> how it is discharged
 SITES = {
@@ -34,6 +42,14 @@ SITES = {
     ("cfg/analysis.py", "BackwardAnalysis.run", "pop", "queue.pop()"): "C09: key sets unique for every pop order; the stored WITNESS block is a separate obligation below",
     ("cfg/cfg.py", "BaseCFG.update_reachable", "pop", "queue.pop()"): "proved here: least set closed under successors, for every pop order",
     ("compiler/core.py", "insert_drops", "next-iter", "next(iter(hugr.linked_ports(port)), None)"): "emptiness test only (compared with None)",
+    ("checker/expr_checker.py", "check_call", "select", "min(ty.unsolved_vars - subst.keys(), key=lambda v: v.id)"): "the key is injective on the set: existential variables carry globally unique ids (ExistentialVar._fresh_id)",
+    ("checker/func_checker.py", "check_nested_func_def", "next-iter", "next(iter(captured.keys()))"): "captured is a dict filled in sorted-name order (obligation captured-variables-sorted below): first key = smallest name",
+    ("checker/modifier_checker.py", "check_modified_block", "next-iter", "next(iter(loops))"): "loops is a list in AST visit order (ast_util.find_nodes returns AstSearcher.found, a list)",
+    ("checker/modifier_checker.py", "check_modified_block", "next-iter", "next(iter(cfg_bb.vars.assigned.items()))"): "VariableStats.assigned is a dict filled in statement order by VariableVisitor",
+    ("checker/unitary_checker.py", "check_invalid_under_dagger", "next-iter", "next(iter(loops))"): "list in AST visit order (find_nodes)",
+    ("checker/unitary_checker.py", "check_invalid_under_dagger", "next-iter", "next(iter(found))"): "list in AST visit order (find_nodes)",
+    ("guppylang:decorator.py", "_parse_kwargs", "next-iter", "next(iter(kwargs), None)"): "kwargs is the keyword dict of the decorator call: insertion order = order the keywords were written",
+    ("definition/declaration.py", "RawFunctionDecl.parse", "select", "min(mono_params, key=lambda p: p.idx)"): "the key is injective on the set: the parameters of one signature have pairwise distinct indices (C13 S5)",
     ("compiler/core.py", "CompilerContext.compile", "select", "min(mono_params, key=lambda p: p.idx)"): "the key is injective on the set: the parameters of one definition have pairwise distinct de Bruijn indices (C13 S5), so the minimum is unique",
 }
 
@@ -215,14 +231,148 @@ class Scanner(ast.NodeVisitor):
         self.generic_visit(n)
 
 
+NCH_B = 8
+
+
 def run(chk):
-    e = mk_engine(chk)
     chk.level = "proof"
+    chk.section("static", lambda: static_part(chk))
+    for i in range(NCH_B):
+        chk.section(f"bounded-{i}", lambda i=i: bounded(chk, i))
+
+
+def bounded(chk, i):
+    """BOUNDED: outcomes are the same under every worklist schedule tried (C10_oracle.py)"""
+    import json
+    from pyvc.report import run_replay
+    from .C10_oracle import CHILD
+    scheds = list(range(6)) if chk.tier != "thorough" else list(range(12))
+    os.environ["PYTHONHASHSEED"] = "0"
+    runs = {}
+    for sc in scheds:
+        res = run_replay(CHILD, {"schedule": sc, "chunk": i, "nchunks": NCH_B}, chk.repo, timeout=3000)
+        if "outcomes" not in res:
+            chk.undecided(f"bounded[{i}/{NCH_B}]:schedules", f"oracle run failed (schedule {sc}): " + json.dumps(res)[:600])
+            return
+        runs[sc] = res["outcomes"]
+    base = runs[scheds[0]]
+    bad = None
+    for sc in scheds[1:]:
+        for k, v in base.items():
+            if runs[sc].get(k) != v and bad is None:
+                bad = {"program": k, "schedule_a": scheds[0], "outcome_a": v, "schedule_b": sc, "outcome_b": runs[sc].get(k)}
+    n_h = sum(1 for v in base.values() if v.startswith("hugr:"))
+    n_e = sum(1 for v in base.values() if v.startswith("error:"))
+    n_c = sum(1 for v in base.values() if v.startswith("crash:"))
+    o = chk.bounded_result(f"bounded[{i}/{NCH_B}]:same-HUGR-bytes/same-error-class-and-variable-under-every-worklist-schedule(slice {i} of {NCH_B}; {len(scheds)} schedules)", bad is None, len(base) * len(scheds),
+                           detail=(f"{bad['program']}: schedule {bad['schedule_a']} gives {bad['outcome_a']}, schedule {bad['schedule_b']} gives {bad['outcome_b']}" if bad else
+                                   f"{len(base)} programs ({n_h} compiled, {n_e} rejected, {n_c} crashed) x {len(scheds)} schedules agree"), witness=bad, func="guppylang_internals.cfg.analysis:BackwardAnalysis.run")
+    if bad:
+        o.replay.update({"script": CHILD + REPLAY_SCHED_TAIL, "input": {"schedule": bad["schedule_b"], "chunk": i, "nchunks": NCH_B, "program": bad["program"], "expected": bad["outcome_a"]}})
+    chk.record(f"bounded[{i}/{NCH_B}]:programs-compiled-and-rejected-both-occur", n_h >= 5 and n_e >= 5 and n_c == 0, f"{n_h} compiled, {n_e} rejected, {n_c} crashed", kind="reachability")
+
+
+REPLAY_SCHED_TAIL = r'''
+_o = json.loads(json.dumps(out))
+print(json.dumps({"violates": _o.get(I_["program"]) != I_["expected"], "program": I_["program"], "this_schedule": _o.get(I_["program"]), "other_schedule": I_["expected"]}))
+'''
+
+
+def captured_sorted(chk):
+    """The variables a nested function / a modifier block captures become inputs of the lifted function
+    in the order they are collected.  They are collected from the liveness result at the entry block,
+    whose KEY ORDER depends on the worklist schedule (shown by the bounded replay below on the real
+    LivenessAnalysis): the collection must therefore go through sorted()."""
+    for rel, fn in (("checker/func_checker.py", "check_nested_func_def"), ("checker/modifier_checker.py", "check_modified_block")):
+        tree = ast.parse(open(os.path.join(chk.repo, PKG, rel)).read())
+        f = next(n for n in ast.walk(tree) if isinstance(n, ast.FunctionDef) and n.name == fn)
+        iters = [g.iter for n in ast.walk(f) if isinstance(n, (ast.DictComp, ast.ListComp, ast.SetComp, ast.GeneratorExp)) for g in n.generators] + [n.iter for n in ast.walk(f) if isinstance(n, ast.For)]
+        live = [it_ for it_ in iters if "live_before[" in ast.unparse(it_)]
+        ok = bool(live) and all(isinstance(it_, ast.Call) and isinstance(it_.func, ast.Name) and it_.func.id == "sorted" for it_ in live)
+        chk.record(f"{fn}:captured-variables-are-collected-in-sorted-order(every iteration over live_before[...] goes through sorted())", ok, str([ast.unparse(x)[:80] for x in live]),
+                   func=f"guppylang_internals.{rel[:-3].replace('/', '.')}:{fn}", backend="structural").replay_script = REPLAY_CAPTURED
+    from pyvc.report import run_replay
+    for o in chk.obls:
+        if getattr(o, "replay_script", None) and o.status == "refuted":
+            res = run_replay(REPLAY_CAPTURED, {}, chk.repo, timeout=600)
+            o.replay = {"confirmed": bool(res.get("violates")), "script": REPLAY_CAPTURED, "input": {}, "native": res}
+    res = run_replay(REPLAY_KEYORDER, {}, chk.repo, timeout=300)
+    chk.record("LivenessAnalysis:key-order-of-the-result-DOES-depend-on-the-pop-order(why consumers must not rely on it)", bool(res.get("violates")), str(res)[:300], kind="reachability",
+               func="guppylang_internals.cfg.analysis:BackwardAnalysis.run")
+
+
+REPLAY_KEYORDER = r'''
+import itertools
+import guppylang_internals.cfg.analysis as A
+from guppylang_internals.cfg.bb import BB, VariableStats
+class Sched(set):
+    order = []
+    def pop(self):
+        for i in list(Sched.order):
+            for b in self:
+                if b.idx == i:
+                    Sched.order.remove(i); self.remove(b); return b
+        return set.pop(self)
+A.set = Sched
+outs = {}
+edges = ((0, 1), (0, 2), (1, 3), (2, 3))
+uses = {0: {}, 1: {"a": None}, 2: {"b": None}, 3: {"c": None, "a": None}}
+for perm in itertools.permutations(range(4)):
+    bbs = [BB(i, None) for i in range(4)]
+    for a, b in edges:
+        bbs[a].successors.append(bbs[b]); bbs[b].predecessors.append(bbs[a])
+    stats = {bbs[i]: VariableStats(used=dict(uses[i])) for i in range(4)}
+    Sched.order = list(perm)
+    r = A.LivenessAnalysis(stats).run(bbs)
+    outs.setdefault(tuple(r[bbs[0]]), perm)
+print(json.dumps({"violates": len(outs) > 1, "key_orders_at_entry": {str(k): list(v) for k, v in outs.items()}}))
+'''
+
+REPLAY_CAPTURED = r'''
+import guppy_plainbool
+import os, tempfile, importlib.util
+import guppylang
+guppylang.enable_experimental_features()
+import guppylang_internals.cfg.analysis as A
+import hugr.ops as ops
+class Sched(set):
+    mode = "min"
+    def pop(self):
+        b = (min if Sched.mode == "min" else max)(self, key=lambda x: x.idx)
+        self.remove(b); return b
+A.set = Sched
+SRC = """
+from guppylang import guppy
+@guppy
+def main(b: bool) -> int:
+    alpha = 1; beta = 2.5; gamma = True
+    def inner(k: int) -> int:
+        if k > 0:
+            return alpha + k
+        elif k < -3:
+            return int(beta) + (1 if gamma else 0)
+        return alpha + (2 if gamma else 0)
+    return inner(2)
+"""
+outs = {}
+for mode in ("min", "max"):
+    Sched.mode = mode
+    d = tempfile.mkdtemp(dir=os.environ.get("TMPDIR", "/var/tmp")); fn = os.path.join(d, f"capm_{mode}.py"); open(fn, "w").write(SRC)
+    spec = importlib.util.spec_from_file_location(f"capm_{mode}", fn); m = importlib.util.module_from_spec(spec); sys.modules[f"capm_{mode}"] = m
+    spec.loader.exec_module(m)
+    mod = m.main.compile_function().modules[0]
+    outs[mode] = [[str(t) for t in mod[n].op.inputs] for n in mod if isinstance(mod[n].op, ops.FuncDefn) and mod[n].op.f_name == "inner"]
+print(json.dumps({"violates": outs["min"] != outs["max"], "inputs_of_the_lifted_function_by_schedule": outs}))
+'''
+
+
+def static_part(chk):
+    e = mk_engine(chk)
+    captured_sorted(chk)
     # ------------------------------------------------------------------ 1. site scan
     found = []
     banned = []
-    for rel in FILES:
-        path = os.path.join(chk.repo, PKG, rel)
+    for rel, path in all_files(chk.repo):
         tree = ast.parse(open(path).read())
         sc = Scanner(rel, tree)
         sc.visit(tree)
@@ -232,7 +382,7 @@ def run(chk):
                 f = ast.unparse(n.func)
                 if f in ("id", "hash", "random.random", "random.choice", "time.time", "os.urandom", "uuid.uuid4") or f.startswith("random."):
                     banned.append(f"{rel}:{n.lineno}:{f}")
-    chk.record("anchored-modules:no-id()/hash()/random/time-calls(nondeterminism-enters-only-through-unordered-collections)", not banned, str(banned), backend="structural(scan)")
+    chk.record("all-modules:no-id()/hash()/random/time-calls(nondeterminism-enters-only-through-unordered-collections)", not banned, str(banned), backend="structural(scan)")
     for site in found:
         why = SITES.get(site)
         chk.record(f"site:{site[0]}:{site[1]}:{site[2]}:`{site[3]}`:order-independence-discharged", why is not None,
@@ -390,5 +540,6 @@ def run(chk):
     chk.assumptions += ["nondeterminism can only enter through unordered collections (scan for id/hash/random/time in the anchored modules is part of the run); dict iteration is insertion-ordered",
                         "the scanner's set-typed-expression inference is syntactic (set()/set displays/comprehensions/keys()|keys()/set[...] annotations/require_monomorphization)",
                         "order-independence obligations compare two opposite enumeration orders on inputs with two distinguishable offending elements"]
-    chk.not_covered += ["byte-identity of the serialised HUGR (depends on hugr's serializer)", "modules outside the anchored list", "witness order-dependence is only refuted by native enumeration (bounded), not proved absent"]
+    chk.not_covered += ["byte-identity of the serialised HUGR beyond the bounded schedule layer (depends on hugr's serializer)", "consumers of the liveness result's KEY ORDER other than the two capture sites (check_bb / check_cfg_linearity report the first offending variable in that order): bounded schedule layer only",
+                        "witness order-dependence is only refuted by native enumeration (bounded), not proved absent"]
     chk.use_engine(e)
